@@ -138,24 +138,57 @@ pub fn open_stack(root: &Path, s: &StackSpec) -> Handle {
         // first use of the builder: some unrelated cache; `take()` leaves the builder reset
         let _unrelated = b.plain_reader(root.join("unrelated-reader")).take().build();
     }
+    // The public builder offers several routes to the same configuration (`writer(path, n, cap)`
+    // picks plain for n <= 1, `reader(path, n)` likewise, `plain_readers([..])` adds several at
+    // once); which route is taken is a deterministic function of the specification, so that the
+    // enumerations cover all of them.
+    let route = hash_str(&format!("{:?}", s)) % 3;
+    if s.writer.is_none() && s.readers.is_empty() && s.checker == Checker::None && s.auto_sync && mode == 0 && route == 0 {
+        return Handle::Stack(Cache::default(), log);
+    }
     match &s.writer {
         Some(DirSpec::Plain { dir, cap }) => {
-            b.plain_writer(root.join(dir), *cap);
+            if route == 1 {
+                b.writer(root.join(dir), (hash_str(&format!("{:?}", s)) / 3 % 2) as usize, *cap);
+            } else {
+                b.plain_writer(root.join(dir), *cap);
+            }
         }
         Some(DirSpec::Sharded { dir, shards, cap }) => {
-            b.sharded_writer(root.join(dir), *shards, *cap);
+            if route == 1 && *shards >= 2 {
+                b.writer(root.join(dir), *shards, *cap);
+            } else {
+                b.sharded_writer(root.join(dir), *shards, *cap);
+            }
         }
         None => {}
     }
-    for r in &s.readers {
-        match r {
-            DirSpec::Plain { dir, .. } => {
-                b.plain_reader(root.join(dir));
-            }
-            DirSpec::Sharded { dir, shards, .. } => {
-                b.sharded_reader(root.join(dir), *shards);
+    if route == 2 && !s.readers.is_empty() && s.readers.iter().all(|r| !r.is_sharded()) {
+        b.plain_readers(s.readers.iter().map(|r| root.join(r.dir())));
+    } else {
+        for r in &s.readers {
+            match r {
+                DirSpec::Plain { dir, .. } => {
+                    if route == 1 {
+                        b.reader(root.join(dir), (hash_str(&format!("{:?}{}", s, dir)) / 3 % 2) as usize);
+                    } else {
+                        b.plain_reader(root.join(dir));
+                    }
+                }
+                DirSpec::Sharded { dir, shards, .. } => {
+                    if route == 1 && *shards >= 2 {
+                        b.reader(root.join(dir), *shards);
+                    } else {
+                        b.sharded_reader(root.join(dir), *shards);
+                    }
+                }
             }
         }
+    }
+    if route == 2 && s.checker == Checker::None {
+        // setting and clearing a checker must leave none configured
+        b.byte_equality_checker();
+        b.clear_consistency_checker();
     }
     match s.checker {
         Checker::None => {}
@@ -181,15 +214,35 @@ pub fn open_stack(root: &Path, s: &StackSpec) -> Handle {
 pub fn open_readonly(root: &Path, readers: &[DirSpec], checker: Checker) -> Handle {
     let log: CheckLog = Arc::new(Mutex::new(Vec::new()));
     let mut b = ReadOnlyCacheBuilder::new();
-    for r in readers {
-        match r {
-            DirSpec::Plain { dir, .. } => {
-                b.plain(root.join(dir));
-            }
-            DirSpec::Sharded { dir, shards, .. } => {
-                b.sharded(root.join(dir), *shards);
+    let route = hash_str(&format!("{:?}{:?}", readers, checker)) % 3;
+    if readers.is_empty() && checker == Checker::None && route == 0 {
+        return Handle::Ro(ReadOnlyCache::default(), log);
+    }
+    if route == 2 && !readers.is_empty() && readers.iter().all(|r| !r.is_sharded()) {
+        b.plain_caches(readers.iter().map(|r| root.join(r.dir())));
+    } else {
+        for r in readers {
+            match r {
+                DirSpec::Plain { dir, .. } => {
+                    if route == 1 {
+                        b.cache(root.join(dir), (hash_str(&format!("{:?}{}", readers, dir)) / 3 % 2) as usize);
+                    } else {
+                        b.plain(root.join(dir));
+                    }
+                }
+                DirSpec::Sharded { dir, shards, .. } => {
+                    if route == 1 && *shards >= 2 {
+                        b.cache(root.join(dir), *shards);
+                    } else {
+                        b.sharded(root.join(dir), *shards);
+                    }
+                }
             }
         }
+    }
+    if route == 2 && checker == Checker::None {
+        b.byte_equality_checker();
+        b.clear_consistency_checker();
     }
     match checker {
         Checker::None => {}
